@@ -347,6 +347,23 @@ func TestC20_SuccessHeaders(t *testing.T) {
 			check("authorize-"+mode+"-"+strings.ReplaceAll(rtype, " ", "+"), ar.Header)
 		}
 	}
+	// an integrator's own authorize handler may add headers to the responder; whatever it adds, the response that
+	// carries the code / tokens stays uncacheable
+	for _, mode := range []fosite.ResponseModeType{fosite.ResponseModeDefault, fosite.ResponseModeQuery, fosite.ResponseModeFragment, fosite.ResponseModeFormPost} {
+		for _, hdr := range [][2]string{{"Cache-Control", "public, max-age=300"}, {"Pragma", "cache"}, {"cache-control", "private"}, {"X-Custom", "1"}} {
+			ru, _ := url.Parse(redirectURI)
+			areq := fosite.NewAuthorizeRequest()
+			areq.RedirectURI = ru
+			areq.ResponseMode = mode
+			areq.State = "state-0123456789"
+			aresp := fosite.NewAuthorizeResponse()
+			aresp.AddParameter("code", "some-code")
+			aresp.AddHeader(hdr[0], hdr[1])
+			rw := httptest.NewRecorder()
+			w.P.WriteAuthorizeResponse(context.Background(), rw, areq, aresp)
+			check(fmt.Sprintf("authorize-writer-%s-with-handler-header-%s", map[fosite.ResponseModeType]string{fosite.ResponseModeDefault: "default"}[mode]+string(mode), strings.ToLower(hdr[0])), rw.Header())
+		}
+	}
 	check("introspection", w.IntrospectEndpoint(url.Values{"token": {tr.Access}}, w.BasicFor("A")).Header)
 	check("introspection-inactive", w.IntrospectEndpoint(url.Values{"token": {"nope"}}, w.BasicFor("A")).Header)
 	check("par", w.PAR(url.Values{"client_id": {"A"}, "response_type": {"code"}, "state": {"state-0123456789"}, "redirect_uri": {redirectURI}}, w.BasicFor("A")).Header)
@@ -403,19 +420,35 @@ func TestC20_StorageSecrets(t *testing.T) {
 		w.AddClient(cl, clientSecret)
 		w.AddUser("peter", password)
 		nA := 0
+		// a client may send more credential parameters than its method uses (a secret next to an assertion, an empty
+		// client_assertion_type next to a secret): none of them may be persisted
+		redundant := rapid.IntRange(0, 2).Draw(rt, "redundantCredentialParameters") == 0
+		if redundant {
+			h.Label("B/redundant-credential-parameters")
+		}
 		creds := func(f url.Values) (url.Values, h.Auth) {
 			switch authMethod {
 			case "client_secret_post":
 				f.Set("client_id", "A")
 				f.Set("client_secret", clientSecret)
+				if redundant {
+					f.Set("client_assertion_type", "")
+				}
 				return f, h.Auth{}
 			case "private_key_jwt":
+				if redundant {
+					f.Set("client_id", "A")
+					f.Set("client_secret", clientSecret)
+				}
 				nA++
 				a := h.MustSignJWT(h.RSAKey(1), "RS256", "kid-1", map[string]interface{}{"iss": "A", "sub": "A", "aud": h.TokenURL, "jti": fmt.Sprintf("%s-%d", tag, nA), "exp": h.Now().Add(300e9).Unix()})
 				secrets[fmt.Sprintf("client_assertion_%d", nA)] = a
 				f.Set("client_assertion_type", assertionType)
 				f.Set("client_assertion", a)
 				return f, h.Auth{}
+			}
+			if redundant {
+				f.Set("client_assertion_type", "")
 			}
 			return f, h.Auth{BasicUser: "A", BasicPass: clientSecret}
 		}
